@@ -39,3 +39,36 @@ def op_value_bounds(sl, odom, var="ov"):
         return "0 <= %s <= 1" % var
     n = {"hex": len(odom.hex_cands), "float": len(odom.float_cands), "string": len(odom.str_cands)}[sl.kind]
     return "0 <= %s < %d" % (var, n)
+
+
+def state_jobs(prop, module, body, trees, dom, budget, nparts, tmo, rng, extra_ctx=None, tag="", nsamples=2, extra_params=None, extra_pre="", extra_samples=None, must_free=None):
+    """One job per (tree, partition): all user-state descriptors of the tree inside `dom`.
+    extra_params/extra_pre append further symbolic parameters (operations etc.); extra_samples() -> list of values."""
+    from ..engine import Job
+    from .. import state as ST
+
+    out = []
+    for tid in trees:
+        slots = ST.layout(tid)
+        parts, complete = ST.partitions(slots, dom, budget, nparts, rng, must_free=(must_free(tid, slots) if must_free else ()))
+        for pi, fixed in enumerate(parts):
+            sp, spre = ST.params_for(slots, dom, fixed=fixed)
+            free = [sl for sl in slots if sl.name not in fixed]
+            ctx = {"tree": tid, "dom": dom.to_json(), "nstate": len(sp), "fixed": fixed}
+            ctx.update(extra_ctx or {})
+            params = sp + list(extra_params or [])
+            pre = spre + ((" and " + extra_pre) if extra_pre else "")
+            smp = [rand_state(rng, free, dom) + (extra_samples(rng) if extra_samples else []) for _ in range(nsamples)]
+            name = "%s-%s%s%s" % (prop, tid, ("-" + tag) if tag else "", "" if complete else "-p%d" % pi)
+            out.append(Job(prop, name, module, body, ctx, params, pre, timeout=tmo, samples=smp, tree=tid))
+    return out
+
+
+def decode_state(ctx, args):
+    from .. import state as ST
+
+    tid = ctx["tree"]
+    dom = ST.Dom.from_json(ctx["dom"])
+    slots = ST.layout(tid)
+    vals = ST.decode(slots, dom, args[: ctx["nstate"]], fixed=ctx.get("fixed"))
+    return tid, dom, slots, vals
